@@ -61,7 +61,7 @@ def run(prop, n, workers, order, hashseed, seed):
 
 if __name__ == "__main__":
     n = int(sys.argv[1]) if len(sys.argv) > 1 else 60
-    props = [p.upper() for p in sys.argv[2:]] or ["C03", "C08", "C10", "C12", "C13", "C14", "C15", "C18", "C20"]
+    props = [p.upper() for p in sys.argv[2:]] or ["C03", "C08", "C09", "C10", "C12", "C13", "C14", "C15", "C18", "C20"]
     bad = 0
     for prop in props:
         a = run(prop, n, 1, "asc", 0, 777)
